@@ -72,7 +72,9 @@ def generate_mesh(vertices, edges, cells, ne=4, **kwargs):
             # TODO: Make it work with polygonal vertex model
             if (len(e) == 2 and
                 len(vertices[e[0]].ownCells) < 3 and
-                len(vertices[e[1]].ownCells) < 3):
+                len(vertices[e[1]].ownCells) < 3 and
+                # only edges on the border: an edge shared by two cells is their interface
+                len(set(vertices[e[0]].ownCells) & set(vertices[e[1]].ownCells)) < 2):
                 vertices_to_join.append(e)
 
     vertexToRemove = []
